@@ -148,4 +148,33 @@ theorem strip_regroup : (t : Term) → inHRFragN t = true → stripPar (hrTokens
       rw [hrn]
       exact node_strip regroup op args _ p rfl ih (fun a _ => typeOf_regroup a) hn
 
+/-! ## the fragment with binary applications is part of the larger one, and `regroup` is the identity on it -/
+
+theorem fragNode_nary3 {op : Op} {s : String} (hs : shapeOf op = some (.naryInfix s)) (a b c : Term) (more : List Term)
+    (p : Payload) : fragNode op (a :: b :: c :: more) p = false := by
+  simp [fragNode, hs]
+
+theorem frag_subset : (t : Term) → inHRFrag t = true → regroup t = t ∧ inHRFragN t = true
+  | .node op args p, h => by
+    rw [inHRFrag_node] at h
+    simp only [Bool.and_eq_true, List.all_eq_true, List.mem_map, id, forall_exists_index, and_imp,
+      forall_apply_eq_imp_iff₂] at h
+    have ih : ∀ a ∈ args, regroup a = a ∧ inHRFragN a = true := fun a ha => frag_subset a (h.1 a ha)
+    have hmap : args.map regroup = args := by
+      conv => rhs; rw [← List.map_id args]
+      exact List.map_congr_left (fun a ha => (ih a ha).1)
+    have hrn : regroupNode op args p = .node op args p := by
+      rcases regroupNode_cases op args p with ⟨s, a, b, c, more, hs, _, has, _⟩ | h'
+      · rw [has, fragNode_nary3 hs] at h; cases h.2
+      · exact h'
+    refine ⟨by rw [regroup_node, hmap, hrn], ?_⟩
+    rw [inHRFragN_node, hmap]
+    simp only [Bool.and_eq_true, List.all_eq_true, List.mem_map, id, forall_exists_index, and_imp,
+      forall_apply_eq_imp_iff₂]
+    refine ⟨fun a ha => (ih a ha).2, ?_⟩
+    unfold fragNodeN
+    split
+    · next s a b c more hs => rw [fragNode_nary3 hs] at h; cases h.2
+    · exact h.2
+
 end PySMT.HR.RT
